@@ -17,6 +17,11 @@ import RV.Drv.Traffic
 import RV.Drv.TRSM
 import RV.Drv.Tables
 import RV.Drv.Cluster
+import RV.Drv.CtlPDeploy
+import RV.Drv.CtlCanary
+import RV.Drv.CtlBlueGreen
+import RV.Drv.CtlSts
+import RV.Drv.Isolation
 namespace RV.Drv
 /-- suite name ↦ handler.  One file per suite so that suites can be developed independently. -/
 def lookup : String → Option Handler
@@ -38,5 +43,10 @@ def lookup : String → Option Handler
   | "trsm" => some TRSM.handle
   | "tables" => some Tables.handle
   | "cluster" => some Cluster.handle
+  | "ctlpdeploy" => some CtlPDeploy.handle
+  | "ctlcanary" => some CtlCanary.handle
+  | "ctlbluegreen" => some CtlBlueGreen.handle
+  | "ctlsts" => some CtlSts.handle
+  | "isolation" => some Isolation.handle
   | _ => none
 end RV.Drv
